@@ -283,8 +283,19 @@ def _numpy_for_states(it):
             ex.ctx.ghost["alias-answer"] = bool(ex.ctx.choose(2, "aliasing-predicate-answers-True"))
         return ex.ctx.ghost["alias-answer"]
     alias = Native(_alias, "np.may_share_memory / shares_memory")
+
+    def _array_equal(ex, a, b, *r, **k):
+        """np.array_equal / allclose-style value comparisons: True for identical objects; for DIFFERENT arrays the answer may be True although user
+        functions distinguish them (-0.0 == +0.0, 1 == 1.0 across dtypes, a buffer the caller has meanwhile updated in place): both answers explored"""
+        if a is b or a == b:
+            return True
+        if "value-equal-answer" not in ex.ctx.ghost:
+            ex.ctx.ghost["value-equal-answer"] = bool(ex.ctx.choose(2, "value-comparison-of-different-arrays-answers-True"))
+        return ex.ctx.ghost["value-equal-answer"]
+    veq = Native(_array_equal, "np.array_equal / array_equiv / allclose")
     if "numpy" not in it.ext_modules:
-        it.ext_modules["numpy"] = Namespace("numpy", ndarray=TypeTag("ndarray", is_arr), may_share_memory=alias, shares_memory=alias)
+        it.ext_modules["numpy"] = Namespace("numpy", ndarray=TypeTag("ndarray", is_arr), may_share_memory=alias, shares_memory=alias,
+                                            array_equal=veq, array_equiv=veq, allclose=veq)
 
 
 def protocol(run, it, prop):
@@ -326,6 +337,7 @@ def protocol(run, it, prop):
                         if "no aux" in op:
                             w = u.d_noaux
                         cfg_here = (cfg_t if target is t else cfg_s).get(k, ABSENT)
+                        rec_before = {kk: target.attrs["_cache"].get(u.key[kk], "absent") for kk in u.key}
                         got = ex.call(w, [sysobj, target], {})
                         want = u.scratch(k, target)
                         ok = got == want
@@ -333,6 +345,12 @@ def protocol(run, it, prop):
                                    detail="" if ok else f"{op} returned {got}, from scratch {want}; {desc}",
                                    text="wrapper returns the value the method would compute from the current variables (transparency)")
                         if prop == "C18":
+                            others_before = rec_before
+                            gone = [kk for kk in u.key if kk != k and not (name == "d" and kk == ("f", k[1])) and
+                                    target.attrs["_cache"].get(u.key[kk], "absent") != others_before[kk]]
+                            ctx.run.ob(P + "cached-call/leaves-the-entries-of-other-methods-and-systems-alone", core.DISCHARGED if not gone else core.FAILED, "pyvc-enum",
+                                       detail="" if not gone else f"{op} changed / evicted the entries {gone} (another method or another system object on the same state); {desc}",
+                                       text="a memoised call reads and writes only its own key (and the keys of its auxiliary outputs): other valid entries are still hits afterwards")
                             ncalls = len(u.calls)
                             if cfg_here == VALID:
                                 ctx.run.ob(P + "cached-call/hit-costs-nothing", core.DISCHARGED if ncalls == 0 else core.FAILED, "pyvc-enum",
